@@ -126,10 +126,10 @@ CHECKS["C10"] = {
 CHECKS["C07"] = {
     "corpus": True,
     "runs": [R("./vm", {"fn": r"^ZZ_C07_"})],
-    "expect_asserts": [r"C07\.once-and-in-order/.*", r"C07\.evaluation-stops-at-failing-operand/.*", r"C07\.short-circuit/right-only-when-needed/.*", r"C07\.defer-evaluates-operands-at-the-statement/.*"],
+    "expect_asserts": [r"C07\.once-and-in-order/.*", r"C07\.evaluation-stops-at-failing-operand/.*", r"C07\.short-circuit/right-only-when-needed/.*", r"C07\.defer-evaluates-operands-at-the-statement/.*", r"C07\.assignment-target/index-operands-evaluated-once/.*", r"C07\.accepted-call-evaluates-every-operand/.*"],
     "bounds": {"callees": "15: Go functions with 0..3 fixed parameters, two variadic ones, script functions with 0..6 parameters (direct path <= 4, reflect path >= 5) and two variadic script functions",
                "operands": "0..4 probe operands, failing operand index -1..n-1, spread of a 2-element slice", "call forms": "direct, anonymous, go, defer",
-               "other forms": "list/typed list/map literals, the three operator groups, index, in, slice, return list, multi-assignment, var; && || ?: ??"},
+               "other forms": "list/typed list/map literals, the three operator groups, index, in, slice, return list, multi-assignment, var; && || ?: ??; index operands of 10 assignment-target shapes (slice element, append at len, nested, map entry, member of element, two targets, `v, ok = m[k]`) from source text"},
     "stubs": [], "assumptions": ["the space is enumerated by forking; no payload is symbolic, the solver is not needed for these obligations"],
     "outside": ["more than 4 operands", "x op= e and x++ (documented exception)"],
 }
